@@ -229,7 +229,7 @@ impl<'a> Gen<'a> {
         }
         let n = self.rng.range(1, 3);
         for _ in 0..n {
-            s.push_str(self.rng.pick(CLASS_ITEMS));
+            s.push_str(self.rng.pick_str(CLASS_ITEMS));
         }
         s.push(']');
         s
@@ -248,7 +248,7 @@ impl<'a> Gen<'a> {
             if self.cfg.flags && self.rng.chance(1, 9) {
                 // Flags before a token. (Before a leading `**` they are a parse error in the
                 // implementation; the generator mostly avoids that.)
-                out.push_str(self.rng.pick(FLAGS));
+                out.push_str(self.rng.pick_str(FLAGS));
                 if last == Last::Start {
                     last = Last::Other;
                     // Force a non-tree token next by emitting a literal immediately.
@@ -378,7 +378,7 @@ impl<'a> Gen<'a> {
                 7 => {
                     out.push('<');
                     self.seq(Ctx::Rep, depth + 1, out);
-                    out.push_str(self.rng.pick(BOUNDS));
+                    out.push_str(self.rng.pick_str(BOUNDS));
                     out.push('>');
                     last = Last::Branch;
                 },
@@ -441,20 +441,20 @@ pub fn branch_shapes(rng: &mut Rng, n: usize) -> Vec<String> {
         let mut e = String::new();
         fn build(rng: &mut Rng, depth: usize, out: &mut String) {
             if depth == 0 {
-                out.push_str(rng.pick(LEAF));
+                out.push_str(rng.pick_str(LEAF));
                 return;
             }
             let rep = rng.chance(1, 4);
             if rep {
                 out.push('<');
                 if rng.chance(1, 3) {
-                    out.push_str(rng.pick(LEAF));
+                    out.push_str(rng.pick_str(LEAF));
                 }
                 build(rng, depth - 1, out);
                 if rng.chance(1, 3) {
-                    out.push_str(rng.pick(LEAF));
+                    out.push_str(rng.pick_str(LEAF));
                 }
-                out.push_str(rng.pick(&[":1,", ":0,", ":2", "", ":1,2", ":1"]));
+                out.push_str(rng.pick_str(&[":1,", ":0,", ":2", "", ":1,2", ":1"]));
                 out.push('>');
             }
             else {
@@ -465,27 +465,27 @@ pub fn branch_shapes(rng: &mut Rng, n: usize) -> Vec<String> {
                         out.push(',');
                     }
                     if rng.chance(1, 3) {
-                        out.push_str(rng.pick(&["a", "b", "a/", "*", "x"]));
+                        out.push_str(rng.pick_str(&["a", "b", "a/", "*", "x"]));
                     }
                     if rng.chance(1, 2) {
                         build(rng, depth - 1, out);
                     }
                     else {
-                        out.push_str(rng.pick(LEAF));
+                        out.push_str(rng.pick_str(LEAF));
                     }
                     if rng.chance(1, 3) {
-                        out.push_str(rng.pick(&["c", "d", "/c", "*", "x"]));
+                        out.push_str(rng.pick_str(&["c", "d", "/c", "*", "x"]));
                     }
                 }
                 out.push('}');
             }
         }
-        e.push_str(rng.pick(CTX_L));
+        e.push_str(rng.pick_str(CTX_L));
         build(rng, depth, &mut e);
-        e.push_str(rng.pick(CTX_R));
+        e.push_str(rng.pick_str(CTX_R));
         if rng.chance(1, 3) {
             build(rng, 1, &mut e);
-            e.push_str(rng.pick(CTX_R));
+            e.push_str(rng.pick_str(CTX_R));
         }
         out.push(e);
     }
@@ -509,7 +509,7 @@ pub fn mutate(rng: &mut Rng, e: &str) -> String {
             // Insert a flag at a random char boundary.
             let i = rng.below(chars.len() + 1);
             let mut s: String = chars[..i].iter().collect();
-            s.push_str(rng.pick(FLAGS));
+            s.push_str(rng.pick_str(FLAGS));
             s.extend(chars[i..].iter());
             s
         },
@@ -527,7 +527,7 @@ pub fn mutate(rng: &mut Rng, e: &str) -> String {
             // Splice two halves with another corpus-like fragment.
             let i = rng.below(chars.len() + 1);
             let mut s: String = chars[..i].iter().collect();
-            s.push_str(rng.pick(SWEEP_ALPHABET));
+            s.push_str(rng.pick_str(SWEEP_ALPHABET));
             s.extend(chars[i..].iter());
             s
         },
@@ -551,8 +551,8 @@ pub fn arbitrary(rng: &mut Rng) -> String {
                     s.push(c);
                 }
             },
-            1 => s.push_str(rng.pick(SWEEP_ALPHABET)),
-            2 => s.push_str(rng.pick(BOUNDS)),
+            1 => s.push_str(rng.pick_str(SWEEP_ALPHABET)),
+            2 => s.push_str(rng.pick_str(BOUNDS)),
             _ => s.push(*rng.pick(META)),
         }
     }
